@@ -97,12 +97,14 @@ type reader struct {
 	closedCh   chan struct{}
 	ctl        []cobs
 	closeErr   string
+	pauseSeen  []int64 // stamps of the server's OnPause handler, one per PAUSE
 
 	prevSent [][]uint64 // writer goroutine only
 	accCount atomic.Int64
 
 	// racy mode
 	steps []*planItem
+	busy  atomic.Bool // a control operation of this reader is in flight
 }
 
 type planItem struct {
@@ -135,6 +137,7 @@ type harness struct {
 	curErr   []byte
 	notes    []string
 	progress atomic.Int64
+	tWrite   time.Duration
 }
 
 func (h *harness) note(f string, a ...any) {
@@ -183,7 +186,16 @@ func (h *harness) OnPlay(_ *gortsplib.ServerHandlerOnPlayCtx) (*base.Response, e
 	return &base.Response{StatusCode: base.StatusOK}, nil
 }
 
-func (h *harness) OnPause(_ *gortsplib.ServerHandlerOnPauseCtx) (*base.Response, error) {
+// OnPause returns just before the session destroys its writer: the stamp tells where `ring.Close()` is.
+func (h *harness) OnPause(ctx *gortsplib.ServerHandlerOnPauseCtx) (*base.Response, error) {
+	h.mu.Lock()
+	rd := h.sessRdr[ctx.Session]
+	h.mu.Unlock()
+	if rd != nil {
+		rd.mu.Lock()
+		rd.pauseSeen = append(rd.pauseSeen, h.clock.Add(1))
+		rd.mu.Unlock()
+	}
 	return &base.Response{StatusCode: base.StatusOK}, nil
 }
 
@@ -467,7 +479,30 @@ func (rd *reader) count() int {
 	return len(rd.recs)
 }
 
+// connect: DESCRIBE + SETUPs.  Establishing an HTTP tunnel occasionally fails (the server pairs the GET
+// and POST connections in a racy way: "describe: EOF"); that is outside C01, so tunnels are retried.
 func (rd *reader) connect() error {
+	var err error
+	for try := 0; try < 4; try++ {
+		if err = rd.connect1(); err == nil {
+			return nil
+		}
+		if rd.spec.Transport != "http" && rd.spec.Transport != "ws" {
+			return err
+		}
+		rd.h.note("reader %d: tunnel connect retry after: %v", rd.idx, err)
+		if rd.c != nil {
+			rd.c.Close()
+			rd.c = nil
+		}
+		rd.mu.Lock()
+		rd.announced, rd.chans, rd.sess = nil, nil, nil
+		rd.mu.Unlock()
+	}
+	return err
+}
+
+func (rd *reader) connect1() error {
 	h := rd.h
 	scheme := "rtsp"
 	if h.sc.TLS {
@@ -610,6 +645,15 @@ func (rd *reader) doLeave(graceful bool, drainK int) {
 
 func (rd *reader) exec(st Step) {
 	switch st.Op {
+	case "setup":
+		if rd.c == nil {
+			ob := cobs{op: "setup", cs: rd.h.clock.Add(1)}
+			ob.err = rd.connect()
+			ob.cd = rd.h.clock.Add(1)
+			rd.mu.Lock()
+			rd.ctl = append(rd.ctl, ob)
+			rd.mu.Unlock()
+		}
 	case "play":
 		if rd.state == "" || rd.state == "paused" {
 			rd.doPlay()
@@ -649,13 +693,22 @@ func (h *harness) schedule(wid int, final bool) {
 			rd.steps = rd.steps[1:]
 			switch it.step.Op {
 			case "gate":
-				rd.gate.shut()
+				// the connection is never stalled while the reader's own PAUSE / close is processed: a
+				// stalled consumer keeps asyncprocessor.Close() waiting with a closed ring that still accepts
+				// (and then refuses) pushes - outside what the model describes
+				if !rd.busy.Load() {
+					rd.gate.shut()
+				}
 				continue
 			case "ungate":
 				rd.gate.open()
 				continue
 			}
 			if h.sc.Mode == "racy" {
+				if it.step.Op == "pause" || it.step.Op == "leave" {
+					rd.gate.open()
+				}
+				rd.busy.Store(true)
 				close(it.goCh)
 				<-it.started
 			} else {
@@ -766,13 +819,16 @@ func (h *harness) run() error {
 					<-it.goCh
 					close(it.started)
 					rd.exec(it.step)
+					rd.busy.Store(false)
 				}
 			}(rd, items)
 		}
 	}
+	t0 := time.Now()
 	h.writeAll()
 	h.schedule(h.sc.N, true)
 	wg.Wait()
+	h.tWrite = time.Since(t0)
 	for _, rd := range h.readers {
 		rd.gate.open()
 	}
